@@ -14,6 +14,7 @@
 -/
 import MitmVerif.Model.C24
 import MitmVerif.Model.C24_Route
+import MitmVerif.Gen.C24
 namespace MitmVerif.Props.C24
 open MitmVerif MitmVerif.C24
 
@@ -658,5 +659,29 @@ example : (rrun true (fun _ => .upstream) (RState.init (fun _ => .upstream))
      (some 2, true, [⟨.connect, some .proxyAuthorization⟩, ⟨.request, none⟩])] := by decide +kernel
 
 end Routing
+
+
+/-! ### the order of the default addon chain -/
+
+/-- position of an addon in `mitmproxy.addons.default_addons()` (regenerated from the source on every run) -/
+def addonIdx (name : String) : Option Nat :=
+  let l := MitmVerif.Gen.C24.addonOrder
+  if l.contains name then some (l.idxOf name) else none
+
+/-- both addons are in the chain and the first runs before the second -/
+def addonBefore (a b : String) : Bool :=
+  match addonIdx a, addonIdx b with
+  | some i, some j => decide (i < j)
+  | _, _ => false
+
+/-- **the order the models assume is the order in the source**: hooks run in list order, and the models compose the
+    addons as ProxyAuth → (ScriptLoader, MapRemote, ModifyHeaders: user rewrites) → UpstreamAuth. ProxyAuth must see the
+    CLIENT's credential header before UpstreamAuth writes mitmproxy's own into the same field; UpstreamAuth's `request`
+    hook must run after every rewrite it is meant to react to. -/
+theorem addon_order_as_assumed :
+    addonBefore "ProxyAuth" "UpstreamAuth" = true ∧ addonBefore "ScriptLoader" "UpstreamAuth" = true ∧
+    addonBefore "MapRemote" "UpstreamAuth" = true ∧ addonBefore "ModifyHeaders" "UpstreamAuth" = true ∧
+    addonBefore "ProxyAuth" "NextLayer" = true := by
+  decide +kernel
 
 end MitmVerif.Props.C24
